@@ -148,3 +148,13 @@ Definition judge_stage (c : scase) : list nat :=
         if String.eqb nm b_concealment || String.eqb nm b_mixing then b2n (C18_ok nm p b a r) else 0;
         if String.eqb nm b_anchoring then b2n (C19_ok (s_env c) p b a r) else 0 ]
   end.
+
+(** ** level sources (component level) *)
+From RDM Require Import Model.Levels Check.C14.
+Definition judge_levels (c : bool * string * @lparams NumF * @state NumF * option (list (list (string * float)))) : list nat :=
+  let '(inc, fn, lp, st, obs) := c in
+  let d := if inc then Increasing else Decreasing in
+  [ levels_agree d fn lp st obs;
+    match obs with Some l => b2n (C14_ok d fn lp st l) | None => 0 end ].
+Definition mkLC (inc : bool) (fn : string) (lp : @lparams NumF) (st : @state NumF)
+           (obs : option (list (list (string * float)))) := (inc, fn, lp, st, obs).
